@@ -191,6 +191,7 @@ func installHooks() {
 		PageRead:      func(fs *storage.VerifStore, off uint64, b []byte, n *storage.VerifNode) { if w := curWorld; w != nil { w.hookPageRead(fs, off, b, n) } },
 		WalOpened:     func(f any, db string) { if w := curWorld; w != nil { w.hookWalOpened(f, db) } },
 		WalIO:         func(f any, k int, b []byte) { if w := curWorld; w != nil { w.hookWalIO(f, k, b) } },
+		WalTruncate:   func(f any, size int64) { if w := curWorld; w != nil { w.hookWalTruncate(f, size) } },
 		Replay:        func(fs *storage.VerifStore, op uint8, lsn, pg uint64, cell uint32, redo bool) { if w := curWorld; w != nil { w.hookReplay(fs, op, lsn, pg, cell, redo) } },
 		LRU:           func(l *storage.LRUCache, k int, key any, n *storage.VerifNode) { if w := curWorld; w != nil { w.hookLRU(l, k, key, n) } },
 	})
@@ -735,6 +736,21 @@ func (w *World) hookWalIO(f any, kind int, b []byte) {
 		w.yieldPoint()
 	case storage.VerifWalFlushDone:
 		w.stmtLogged = true
+	}
+}
+
+func (w *World) hookWalTruncate(f any, size int64) {
+	h := w.wals[f]
+	if h == nil {
+		return
+	}
+	w.h(14, uint64(size))
+	if int(size) < len(h.shadow.data) {
+		h.shadow.data = h.shadow.data[:size]
+		w.count("wal_torn_tail_truncated")
+	}
+	if h.shadow.synced > len(h.shadow.data) {
+		h.shadow.synced = len(h.shadow.data)
 	}
 }
 
